@@ -1006,10 +1006,12 @@ func (t *Tokenizer) readQuotedString(quote rune) (models.Token, error) {
 		if r == '\\' {
 			// Handle escape sequences
 			if err := t.handleEscapeSequence(&buf); err != nil {
-				return models.Token{}, errors.InvalidSyntaxError(
+				return models.Token{}, errors.WrapError(
+					errors.ErrCodeUnexpectedChar,
 					fmt.Sprintf("invalid escape sequence: %v", err),
 					models.Location{Line: t.pos.Line, Column: t.pos.Column},
 					string(t.input),
+					err,
 				)
 			}
 			continue
@@ -1101,7 +1103,8 @@ func (t *Tokenizer) handleEscapeSequence(buf *bytes.Buffer) error {
 	t.pos.Column++
 
 	if t.pos.Index >= len(t.input) {
-		return errors.IncompleteStatementError(t.getCurrentPosition(), string(t.input))
+		// a backslash at the very end of the input: the literal is not closed (lexical error)
+		return errors.UnterminatedStringError(t.getCurrentPosition(), string(t.input))
 	}
 
 	r, size := utf8.DecodeRune(t.input[t.pos.Index:])
@@ -1115,11 +1118,12 @@ func (t *Tokenizer) handleEscapeSequence(buf *bytes.Buffer) error {
 	case 't':
 		buf.WriteRune('\t')
 	default:
-		return errors.InvalidSyntaxError(
+		// lexical error: reported with a tokenizer code
+		return errors.NewError(
+			errors.ErrCodeUnexpectedChar,
 			fmt.Sprintf("invalid escape sequence '\\%c'", r),
 			t.getCurrentPosition(),
-			string(t.input),
-		)
+		).WithContext(string(t.input), 1)
 	}
 
 	t.pos.Index += size
@@ -1227,7 +1231,7 @@ func (t *Tokenizer) readNumber(buf []byte) (models.Token, error) {
 // readPunctuation picks out punctuation or operator tokens
 func (t *Tokenizer) readPunctuation() (models.Token, error) {
 	if t.pos.Index >= len(t.input) {
-		return models.Token{}, errors.IncompleteStatementError(t.getCurrentPosition(), string(t.input))
+		return models.Token{}, errors.NewError(errors.ErrCodeUnexpectedChar, "unexpected end of input", t.getCurrentPosition())
 	}
 	r, size := utf8.DecodeRune(t.input[t.pos.Index:])
 	switch r {
